@@ -19,4 +19,20 @@ PROPS = {
             "a voucher naming the same merge lane twice subtracts that lane once per list entry (code and model agree; exhibited as an example, recorded in notes)",
         ],
     },
+    "C17": {
+        "lean_targets": ["BA.Props.C17"],
+        "harness": "c17",
+        "translators": ["extract_constants.py"],
+        "timeout": 3 * 3600,
+        "trusted_base": COMMON_TB + [
+            "the `xSpec` definitions in BA/Model/Evm/Word.lean are a hand transcription of the Yellow Paper (app. H.2), EIP-145 and EIP-7939; the harness carries a second, independent big-integer transcription (harness/src/props/c17.rs `spec`)",
+            "the `uint` crate's primitive operations (overflowing_add/sub/mul, / % << >> ! bit byte leading_zeros, U512 widening) are modelled as exact machine arithmetic on BitVec 256 / Nat; exercised for real by the per-instruction correspondence",
+            "Keccak-256 is an environment oracle of the Lean interpreter; the harness supplies its own Keccak-f[1600] (checked against the standard vectors) both to the model and, as the `hash_64` primitive, to the vvm (the repo's FakePrimitives::hash_64 returns the multihash code as the digest length - see DESIGN §7 C17 notes)",
+            "gas is out of scope (metered by the FVM at the Wasm level); calls to other actors, logs and context opcodes are outside the modelled instruction families",
+        ],
+        "assumptions": [
+            "contract creation (EAM CreateExternal with init code PUSH2 len DUP1 PUSH1 10 PUSH0 CODECOPY PUSH0 RETURN) installs exactly the given runtime code",
+            "memory offsets of generated programs are capped at 64 KiB + 512 B (natively there is no gas to stop a 4 GiB allocation); offsets/sizes > u32::MAX are exercised (they fail before allocating)",
+        ],
+    },
 }
